@@ -354,7 +354,8 @@ impl Rig {
 
 pub(crate) fn data_msg(writer: u8, sn: i64, payload: &[u8]) -> (Data, BitFlags<DATA_Flags>) {
   // serialized payload = 4 byte header (CDR_LE, options 0) + value
-  let mut b = Vec::with_capacity(4 + payload.len());
+  // one byte of slack: see verif_env::shared_bytes
+  let mut b = Vec::with_capacity(5 + payload.len());
   b.extend_from_slice(&RepresentationIdentifier::CDR_LE.bytes);
   b.extend_from_slice(&[0, 0]);
   b.extend_from_slice(payload);
